@@ -355,3 +355,33 @@ theorem sp_agreement (keys : List (Int × Bool)) (a : Int) (h : prvKeySum o keys
 
 end
 end Btc.C16.LG
+
+/-! ### the `Lawful` forms: one-line weakenings through `Lawful.toLawfulGroup` (not counted as obligations) -/
+namespace Btc.C16.LG
+open Btc Btc.Py Btc.C16
+section
+variable {α G : Type} [AddCommGroup G] {o : GroupOps α}
+
+theorem dh_symmetric_lawful (L : Lawful o G) (kdf : Bytes → R Bytes) (a b : Int) :
+    diffieHellman o kdf a (o.mul b o.gen) = diffieHellman o kdf b (o.mul a o.gen) :=
+  dh_symmetric L.toLawfulGroup kdf a b
+
+theorem dleq_complete_lawful (L : Lawful o G) (H : Bytes → Bytes → Bytes) (hn : o.n ≤ 256 ^ 32)
+    (hH : ∀ t m, (H t m).length = 32) (a k : Int) (hk0 : 0 < k) (hk1 : k < o.n) (B Gp : α)
+    (hB : L.abs B ≠ 0) (hG : L.abs Gp ≠ 0) (msg : Option Bytes) (m : Bytes) (hm : dleqMsg msg = .ok m) :
+    dleqVerify o H (o.mul a Gp) B (o.mul a B) (dleqProofOf o H a k B Gp m) Gp msg = .ok () :=
+  dleq_complete_nonce L.toLawfulGroup H hn hH a k hk0 hk1 B Gp hB hG msg m hm
+
+theorem pedersen_verify_commit_lawful (L : Lawful o G) (Hp : α) (r v : Int) (C : α)
+    (h : pedersenCommit o Hp r v = .ok C) : pedersenVerify o Hp r v C = true :=
+  pedersen_verify_commit L.toLawfulGroup Hp r v C h
+
+theorem pubKeySum_of_prvKeySum_lawful (L : Lawful o G) (keys : List (Int × Bool)) (a : Int)
+    (h : prvKeySum o keys = .ok a) :
+    0 < a ∧ a < o.n ∧
+    ∃ A, pubKeySum o (keys.map fun k => spInputPoint o k.1 k.2) = .ok A ∧ L.abs A = a • L.abs o.gen
+      ∧ L.abs A ≠ 0 :=
+  pubKeySum_of_prvKeySum L.toLawfulGroup keys a h
+
+end
+end Btc.C16.LG
